@@ -1,6 +1,7 @@
 import PbBss.Proofs.FixedPointRound
 import PbBss.Proofs.FixedPointChain
 import PbBss.Proofs.FixedPointCacg
+import PbBss.Proofs.EmVmf
 /-! # C03 — the true partition of separable data is a stable EM fixed point
 
 What is proved here (about the SAME definitions `driver_em` / `driver_dist` / `driver_posterior` execute, at
@@ -637,5 +638,34 @@ example (n : Fin 2) :
   cacg_round_hard_uniform scene2 diagEigh (1/100) (1/2) (eighOn2 _) (by norm_num) (by norm_num) (by norm_num)
     (by norm_num) WeightRule.mean ⟨true, 1, tab fun _ => 0⟩ rfl 0 (fun _ => 1)
     (fun k => by fin_cases k <;> simp [hardStart] <;> norm_num) n
+
+/-! ## The vMF family of the executable EM model (`Em.vmfFamily`, stepped against `VMFMMTrainer` by the driver) -/
+section vmf_em
+open PbBss.EmVmf
+variable {D N : Nat}
+
+/-- vMF E-step ranking on the executable family: common concentration `κ > 0` — the class whose mean direction has the
+larger inner product with the observation ranks first; for `κ < 0` the order flips (`vmf_em_rank_neg`). -/
+theorem vmf_em_rank (θc θj : Vmf ℝ D) (y : Fin D → ℝ) (hκ : θc.kappa = θj.kappa) (hl : θc.logNorm = θj.logNorm)
+    (hpos : 0 < θc.kappa) (h : ∑ d, y d * rd θj.mean d < ∑ d, y d * rd θc.mean d) :
+    vmfLogPdf θj y < vmfLogPdf θc y :=
+  EmVmf.vmf_rank θc θj y hκ hl hpos h
+
+theorem vmf_em_rank_neg (θc θj : Vmf ℝ D) (y : Fin D → ℝ) (hκ : θc.kappa = θj.kappa) (hl : θc.logNorm = θj.logNorm)
+    (hneg : θc.kappa < 0) (h : ∑ d, y d * rd θj.mean d < ∑ d, y d * rd θc.mean d) :
+    vmfLogPdf θc y < vmfLogPdf θj y :=
+  EmVmf.vmf_rank_neg θc θj y hκ hl hneg h
+
+/-- vMF M-step output is a valid component: unit mean direction (resultant not floored), concentration inside
+`[min_concentration, max_concentration]`, stored log-normaliser = the one of its own concentration. -/
+theorem vmf_em_mstep_valid (lnorm : ℝ → ℝ) (lo hi tiny : ℝ) (w aux : Fin N → ℝ) (y : Fin N → Fin D → ℝ)
+    (ht : 0 < tiny) (hlh : lo ≤ hi)
+    (hr : tiny ≤ Real.sqrt (∑ d, (∑ n, w n * y n d) * (∑ n, w n * y n d))) :
+    let θ := vmfMstep lnorm lo hi tiny N w aux y
+    (∑ d, rd θ.mean d * rd θ.mean d = 1) ∧ lo ≤ θ.kappa ∧ θ.kappa ≤ hi ∧ θ.logNorm = lnorm θ.kappa :=
+  ⟨vmfMstep_mean_unit lnorm lo hi tiny w aux y ht hr, (vmfMstep_kappa_range lnorm lo hi tiny w aux y hlh).1,
+   (vmfMstep_kappa_range lnorm lo hi tiny w aux y hlh).2, rfl⟩
+
+end vmf_em
 
 end PbBss.C03
